@@ -72,6 +72,16 @@ fn observe<C: BitRepr + Verify>(c: &C, parse_back: &dyn Fn(&[u8]) -> String, all
             }
         }
     }
+    // after all those failed writes (no successful one in between) a healthy sink must still receive the
+    // correct bitstream: a failure must not leave anything behind in the serialiser's scratch state
+    if fail == "ok" {
+        let mut hs = UserSink::default();
+        match c.write(&mut hs) {
+            Ok(()) if hs.ops == us.ops => {}
+            Ok(()) => fail = "healthy_sink_after_failed_writes_gets_a_different_bitstream".to_string(),
+            Err(_) => fail = "healthy_sink_after_failed_writes_errors".to_string(),
+        }
+    }
     Obs { verify, count, len8: s8.len(), len64: s64.len(), parse: parse_back(&bytes), bytes, ops: us.ops, fail }
 }
 
@@ -86,6 +96,8 @@ fn finish(head: String, res: Result<Option<Obs>, String>) -> String {
                 "ok".to_string()
             };
             let o12 = if o.fail == "ok" { "ok".to_string() } else { format!("fail:{}", o.fail) };
+            // C15: what the writer emitted for an accepted component is read back identically by the parser
+            let o15 = if o.parse == "diff" || o.parse == "err" || o.parse == "panic" { format!("fail:parse_back_{}", o.parse) } else { "ok".to_string() };
             let o18 = if !o.verify {
                 "fail:constructed_component_does_not_verify".to_string()
             } else if o.parse == "diff" || o.parse == "err" || o.parse == "panic" {
@@ -97,7 +109,7 @@ fn finish(head: String, res: Result<Option<Obs>, String>) -> String {
                 "ok".to_string()
             };
             format!(
-                "{head} impl_ctor=ok impl_verify={} impl_count={} impl_len8={} impl_len64={} impl_bytes={} impl_ops={} impl_parse={} impl_fail={} o_c08={o08} o_c12={o12} o_c18={o18}",
+                "{head} impl_ctor=ok impl_verify={} impl_count={} impl_len8={} impl_len64={} impl_bytes={} impl_ops={} impl_parse={} impl_fail={} o_c08={o08} o_c12={o12} o_c15={o15} o_c18={o18}",
                 o.verify as u8, o.count, o.len8, o.len64, hex(&o.bytes), if o.ops.is_empty() { "-".to_string() } else { o.ops.join(",") }, o.parse, o.fail
             )
         }
